@@ -7,6 +7,7 @@
 #[path = "../../vnative/src/contain.rs"]
 mod contain;
 mod exec;
+mod longjump;
 mod scenario;
 
 use scenario::SimScenario;
@@ -161,6 +162,12 @@ fn main() {
             let text = std::fs::read_to_string(&args[2]).expect("read replay file");
             let v: serde_json::Value = serde_json::from_str(&text).expect("parse replay file");
             let scv = if v.get("scenario").is_some() { v["scenario"].clone() } else { v };
+            if scv["profile"] == "C15L" {
+                let sc: longjump::LjScenario = serde_json::from_value(scv).expect("C15L scenario");
+                let o = longjump::execute(&sc);
+                println!("{}", json!({"violations": o.violations.iter().map(|(t, d)| json!({"tag": t, "props": ["C15"], "detail": d})).collect::<Vec<_>>(), "digest": format!("{:016x}", o.digest)}));
+                return;
+            }
             let sc: SimScenario = match serde_json::from_value(scv) {
                 Ok(s) => s,
                 Err(e) => {
@@ -202,6 +209,57 @@ fn main() {
                 (it.next().unwrap().parse::<u64>().unwrap(), it.next().unwrap().parse::<u64>().unwrap())
             };
             let want_prop = arg(&args, "--prop").map(|s| s.to_string());
+            if profile == "C15L" {
+                let mut evaluations = 0u64;
+                let mut pairs = 0u64;
+                let mut long_forms = 0u64;
+                let mut refused_pairs = 0u64;
+                let mut digest_sum = 0u64;
+                let mut distinct: BTreeSet<u64> = BTreeSet::new();
+                let mut violations = Vec::new();
+                let mut samples = Vec::new();
+                let mut skipped = 0u64;
+                let mut idx = si;
+                while idx < count {
+                    let sc = longjump::generate(seed, idx);
+                    let o = longjump::execute(&sc);
+                    if o.skipped {
+                        skipped += 1;
+                        idx += sn;
+                        continue;
+                    }
+                    evaluations += 1;
+                    pairs += o.pairs;
+                    long_forms += o.long_forms;
+                    refused_pairs += o.refused;
+                    digest_sum = digest_sum.wrapping_add(mix(idx, o.digest));
+                    for (a, b) in &sc.pairs {
+                        distinct.insert(mix(*a, *b));
+                    }
+                    for (t, d) in &o.violations {
+                        if violations.len() < 4 {
+                            violations.push(json!({"index": idx, "violation": {"tag": t, "props": ["C15"], "detail": d}, "digest": format!("{:016x}", o.digest), "scenario": sc}));
+                        }
+                    }
+                    if samples.is_empty() && si == 0 {
+                        let mut small = sc.clone();
+                        small.pairs.truncate(4);
+                        samples.push(json!(small));
+                    }
+                    idx += sn;
+                }
+                let mut pv = BTreeMap::new();
+                pv.insert("aarch64_macos".to_string(), evaluations);
+                let mut probes = BTreeMap::new();
+                probes.insert("macos_long_form_adrp_add_br", long_forms);
+                probes.insert("pc_target_pairs", pairs);
+                probes.insert("pairs_refused_as_not_encodable", refused_pairs);
+                println!("{}", json!({"evaluations": evaluations, "nontrivial": evaluations, "distinct": distinct.iter().take(500000).map(|h| format!("{h:x}")).collect::<Vec<_>>(),
+                    "faults": {}, "probes": probes, "per_variant": pv, "events": 0, "installs_ok": 0, "installs_refused": 0, "interp_steps": pairs * 3,
+                    "digest_sum": format!("{digest_sum:016x}"), "violations": violations, "other_prop_violations": {}, "samples": samples,
+                    "extra": {"long_jump_subcheck_skipped_scenarios": skipped}}));
+                return;
+            }
             let contained = args.iter().any(|a| a == "--contained");
             let mut undecided = 0u64;
             let mut fatal_outcomes = 0u32;
